@@ -17,6 +17,17 @@ TS_INV = {v: k for k, v in TS_MAP.items()}
 CS_INV = {v: k for k, v in CS_MAP.items()}
 RSW_INV = {v: k for k, v in RS_W_MAP.items()}
 RSF_INV = {0: BaseFacilityState.FREE, 1: BaseFacilityState.WORKING, 2: BaseFacilityState.ABSENCE}
+# the same states as members of the sibling enum (equal by value, not the same object): a log may hold them, e.g.
+# after append_project_log_from_simple_json; comparing states by identity would see a change where there is none
+_ALT = {}
+for _inv, _other in ((TS_INV, BaseComponentState), (CS_INV, BaseTaskState), (RSW_INV, BaseFacilityState), (RSF_INV, BaseWorkerState)):
+    _ALT[id(_inv)] = {k: _other(int(v)) for k, v in _inv.items()}
+
+
+def mixed_log(inv, seq, salt):
+    """the log `seq` as enum members, every third entry (by a cheap hash) taken from the sibling enum"""
+    alt = _ALT[id(inv)]
+    return [(alt if (i * 7 + x + salt) % 3 == 0 else inv)[x] for i, x in enumerate(seq)]
 
 
 def F(x):
@@ -96,7 +107,7 @@ def run_c19(ctx):
             if kind == "T":
                 for cls, fn, inv in (("task", "ganttT", TS_INV), ("component", "ganttC", CS_INV)):
                     obj = BaseTask("t") if cls == "task" else BaseComponent("c")
-                    obj.state_record_list = [inv[x] for x in seq]
+                    obj.state_record_list = mixed_log(inv, seq, n_eval) if n_eval % 2 else [inv[x] for x in seq]
                     try:
                         ready, working = obj.get_time_list_for_gannt_chart(finish_margin=margin)
                     except Exception as e:
@@ -135,7 +146,7 @@ def run_c19(ctx):
             else:
                 for cls, inv in (("worker", RSW_INV), ("facility", RSF_INV)):
                     obj = BaseWorker("w") if cls == "worker" else BaseFacility("f")
-                    obj.state_record_list = [inv[x] for x in seq]
+                    obj.state_record_list = mixed_log(inv, seq, n_eval) if n_eval % 2 else [inv[x] for x in seq]
                     case = dict(stream="c19", kind=cls, log=seq, margin=margin)
                     try:
                         ready, working, absence = obj.get_time_list_for_gannt_chart(finish_margin=margin)
